@@ -108,6 +108,12 @@ def merge_causes():
         ("invalid-second-input", "a: 1\n b: 2\n", []),
         ("aoh-deep-record-without-identity-key", "- {id: 1}\n- {zz: 1}\n",
          ["--mergeat=/b", "--aoh=deep"]),
+        # the merge works but its result cannot be presented in the format
+        # asked for (the tool ends with an uncaught error = non-zero status)
+        ("result-unpresentable-as-json", "1: a\n'1': b\n",
+         ["--document-format=json"]),
+        ("result-key-unpresentable-as-json", "2001-01-01: x\n",
+         ["--document-format=json"]),
     ]
 
 
@@ -187,12 +193,12 @@ def judge_refusal(st, tool, cause, res, before, after, case):
     case = dict(case, tool=tool, cause=cause)
     st.outcomes["%s:refused:%s" % (tool, res.code)] += 1
     st.sig(tool, cause, case.get("backup"), case.get("stale_bak"))
-    if res.exc is not None:
+    if res.exc is not None and not cause.startswith("result-"):
         st.fail("%s|%s|traceback:%s" % (tool, cause,
                                         type(res.exc).__name__), case,
                 "a non-zero exit status", repr(res.exc)[:160])
         return
-    if res.code == 0:
+    if res.code == 0 and res.exc is None:
         st.fail("%s|%s|exit-zero" % (tool, cause), case, "non-zero", "0")
         return
     if after != before:
